@@ -164,6 +164,9 @@ def cases(tier):
                 for cnt in (0, 1, 2, 5):
                     add('replace4|%s|%s|%s|%d' % (key, nk, repr(new), cnt), probe('replace(%s, %s, %s, %d)' % (q, nq, xstr(new), cnt)),
                         probed(s.replace(nee, new, cnt)))
+            for cnt in (-1, -2):
+                # a negative count is an out-of-range request (it used to prefix the needle to every part)
+                add('replace4|%s|%s|%r|%d' % (key, nk, 'Z', cnt), 'replace(%s, %s, "Z", %d)' % (q, nq, cnt), ERR)
             for cnt in (0, 1, 2, 5):
                 # the book says "at most n strings"; python's maxsplit convention yields n+1: both accepted,
                 # but the pieces must be exactly the pieces of one of the two conventions
